@@ -222,6 +222,8 @@ macro_rules! float_addsub {
         fn $name() {
             let x = <$N>::from_bits(kani::any::<$B>());
             let y = <$N>::from_bits(kani::any::<$B>());
+            // finite operands only: CBMC's NaN check flags `inf + -inf` (a legitimate IEEE NaN) in the library and here alike
+            kani::assume(x.is_finite() && y.is_finite());
             let px = <$T as From<$N>>::from(x);
             let py = <$T as From<$N>>::from(y);
             let s = <$N as From<$T>>::from(px + py);
